@@ -13,7 +13,7 @@ EXTENDS Naturals, Sequences, FiniteSets, Json, TLC
 
 CONSTANT TraceFile
 
-Tags == {"none", "ren", "typeOnly", "rensub", "typeOnlysub"}
+Tags == {"none", "ren", "typeOnly", "rensub", "typeOnlysub", "subeq"}      \* subeq: ",typeOnly,subtype=k=v" (a subtype containing "=")
 Fld(n, t, g) == [fname |-> n, ftype |-> t, tag |-> g]
 NoSide == [kind |-> "none", ptr |-> 0, types |-> <<>>, fields |-> <<>>]
 PosSide(ts) == [kind |-> "pos", ptr |-> 0, types |-> ts, fields |-> <<>>]
@@ -30,13 +30,13 @@ Descs == { [inp |-> i, out |-> o, errpos |-> e, special |-> ""] : i \in Sides, o
          \cup { [inp |-> i, out |-> o, errpos |-> e, special |-> ""] : i \in SimpleSides, o \in Sides, e \in {"none", "final"} }
          \cup { [inp |-> NoSide, out |-> PosSide(ts), errpos |-> "middle", special |-> ""] : ts \in {<<"T1", "T2">>, <<"T2", "T1">>, <<"T1", "T1">>} }
          \cup { [inp |-> i, out |-> NoSide, errpos |-> "none", special |-> s] : i \in {StructSide(0, <<Fld("Alpha", "T1", "none")>>), StructSide(1, <<Fld("BETA", "T2", "ren")>>)}, s \in {"mixedin", "mixedout"} }
-         \cup { [inp |-> NoSide, out |-> NoSide, errpos |-> "none", special |-> s] : s \in {"nonfunc", "nil", "S1", "S2", "S3"} }
+         \cup { [inp |-> NoSide, out |-> NoSide, errpos |-> "none", special |-> s] : s \in {"nonfunc", "nil", "S1", "S2", "S3", "S4"} }
 
 Lower(n) == CASE n = "Alpha" -> "alpha" [] n = "BETA" -> "beta" [] n = "Ren" -> "ren" [] OTHER -> n
 FieldValue(f) ==
-  [name |-> CASE f.tag = "none" -> Lower(f.fname) [] f.tag \in {"ren", "rensub"} -> "ren" [] OTHER -> "",
+  [name |-> CASE f.tag = "none" -> Lower(f.fname) [] f.tag \in {"ren", "rensub"} -> "ren" [] OTHER -> "",      \* typeOnly, typeOnlysub, subeq
    type |-> f.ftype,
-   sub  |-> IF f.tag \in {"rensub", "typeOnlysub"} THEN "s" ELSE ""]
+   sub  |-> IF f.tag \in {"rensub", "typeOnlysub"} THEN "s" ELSE IF f.tag = "subeq" THEN "k=v" ELSE ""]
 SideValues(s) == CASE s.kind = "none" -> <<>>
                    [] s.kind = "pos" -> [i \in DOMAIN s.types |-> [name |-> "", type |-> s.types[i], sub |-> ""]]
                    [] OTHER -> [i \in DOMAIN s.fields |-> FieldValue(s.fields[i])]
@@ -47,11 +47,12 @@ WithMiddleErr(vals) == <<vals[1], [name |-> "", type |-> "E", sub |-> ""]>> \o S
 V(n, t, s) == [name |-> n, type |-> t, sub |-> s]
 Static(s) == CASE s = "S1" -> [ok |-> TRUE, inp |-> <<V("alpha", "T1", "")>>, out |-> <<>>]                      \* {Struct; Alpha T1; gamma T2}
                [] s = "S2" -> [ok |-> TRUE, inp |-> <<V("", "T2", "s")>>, out |-> <<V("alpha", "T1", "")>>]        \* in {Struct; hidden T1; Beta T2 `,typeOnly,subtype=s`} out *{Struct; Alpha T1; x int}
-               [] OTHER   -> [ok |-> TRUE, inp |-> <<V("ren", "T1", "s"), V("beta", "T2", "")>>, out |-> <<>>]     \* *{Struct; Alpha T1 `Ren,subtype=s`; skipped T1; BETA T2}
+               [] s = "S3" -> [ok |-> TRUE, inp |-> <<V("ren", "T1", "s"), V("beta", "T2", "")>>, out |-> <<>>]     \* *{Struct; Alpha T1 `Ren,subtype=s`; skipped T1; BETA T2}
+               [] OTHER   -> [ok |-> TRUE, inp |-> <<V("t1", "T1", ""), V("beta", "T2", "")>>, out |-> <<>>]       \* {Struct; T1 (embedded, exported); Beta T2}
 
 Expected(d) ==
   CASE d.special \in {"nonfunc", "nil", "mixedin", "mixedout"} -> [ok |-> FALSE, inp |-> <<>>, out |-> <<>>]
-    [] d.special \in {"S1", "S2", "S3"} -> Static(d.special)
+    [] d.special \in {"S1", "S2", "S3", "S4"} -> Static(d.special)
     [] ~SideOK(d.inp) \/ ~SideOK(d.out) -> [ok |-> FALSE, inp |-> <<>>, out |-> <<>>]
     [] OTHER -> [ok |-> TRUE, inp |-> SideValues(d.inp),
                  out |-> IF d.errpos = "middle" THEN WithMiddleErr(SideValues(d.out)) ELSE SideValues(d.out)]
